@@ -566,3 +566,291 @@ func sectionMutateDerived() {
 	}
 	R.Count("derived_aligned_whole_byte_cases", aligned)
 }
+
+// ---------------------------------------------------------------- M: sequences that do not start from an empty string
+
+// sectionStartFromDerived: the bit string that is written to was not built by
+// the write API from scratch: it was parsed from its Fift-hex text (tagged and
+// untagged lengths) or from JSON, handed out by ReadBits / ReadRemainingBits /
+// Copy, parsed from a BOC with content, or bits beyond its length were poked
+// with On. It is enlarged where necessary (Grow / Append), then written to -
+// ZEROS FIRST, through every writer - then random writes; everything must read
+// back as the ideal list says (raw buffer, ReadUint chunks, ReadBits, ToFiftHex).
+func sectionStartFromDerived() {
+	var lens []int
+	for L := 0; L <= 72; L++ {
+		lens = append(lens, L)
+	}
+	lens = append(lens, 100, 255, 256, 257, 511, 1000, 1016, 1019, 1020, 1021, 1022, 1023)
+	starts := []string{"BitStringFromFiftHex", "UnmarshalJSON", "ReadBits(aligned)", "ReadBits(unaligned)", "ReadRemainingBits", "Copy", "On-beyond-len", "ParsedCell(content)"}
+	zeroWriters := []string{"WriteBit(0)", "WriteUint(0)", "WriteInt(0)", "WriteBytes(00..)", "WriteBitArray(0..)", "WriteBigUint(0)", "WriteUnary(0)", "WriteBitString(0..)", "Append(0..)"}
+	seen := map[string]int64{}
+	caseNo := 0
+	for _, L := range lens {
+		for pk := 0; pk < 3; pk++ {
+			for si, start := range starts {
+				caseNo++
+				rng := R.Rng("from-derived", caseNo)
+				var bitsv []bool
+				if pk == 2 {
+					bitsv = make([]bool, L)
+				} else {
+					bitsv = pattern(pk*2, L, rng) // ones / random
+				}
+				zw := zeroWriters[(caseNo+si)%len(zeroWriters)]
+				wit := map[string]any{"start": start, "len": L, "pattern": pk, "first_write": zw}
+				t, ok := startObject(start, bitsv, rng, wit)
+				if !ok {
+					continue
+				}
+				if t.cell != nil && zw == "Append(0..)" {
+					zw = "WriteBit(0)"
+					wit["first_write"] = zw
+				}
+				seen[start]++
+				model := rb.FromBools(bitsv)
+				model.Cap = 1 << 20
+				if got := realBits(t.bitString()); !rb.Equal(got, bitsv) {
+					wit["got"], wit["want"] = rb.String(got), rb.String(bitsv)
+					viol("value-mismatch@"+start+"/start", wit)
+					continue
+				}
+				// room for what follows: a cell has 1023 bits; a bare string is grown explicitly
+				budget := 1023 - L
+				if t.bs != nil {
+					budget = rng.Range(1, 150)
+					if rng.Bool() {
+						wit["enlarged_by"] = fmt.Sprintf("Grow(%d)", budget)
+						if !guard("Grow", wit, func() { t.bs.Grow(budget) }) {
+							continue
+						}
+					} else {
+						// Append enlarges by itself; the appended bits start with zeros
+						b := append(make([]bool, rng.Range(1, 9)), rng.Bits(rng.Intn(20))...)
+						wit["enlarged_by"] = fmt.Sprintf("Append(%s)", rb.String(b))
+						if !guard("Append", wit, func() { t.bs.Append(*bsOf(b, len(b))) }) {
+							continue
+						}
+						model.WriteBits(b)
+						g := budget
+						wit["enlarged_by"] = fmt.Sprintf("Append(%s), Grow(%d)", rb.String(b), g)
+						if !guard("Grow", wit, func() { t.bs.Grow(g) }) {
+							continue
+						}
+					}
+				}
+				var trace []wop
+				good := true
+				step := func(o wop, b []bool) {
+					if !good || len(b) > budget {
+						return
+					}
+					trace = append(trace, o)
+					wit["writes"] = trace
+					var err error
+					if !guard(o.Op, wit, func() { err = applyDerivedWrite(t, o, b) }) {
+						good = false
+						return
+					}
+					if err != nil {
+						wit["err"] = err.Error()
+						viol("error@"+o.Op+"/fits/after-"+start, wit)
+						good = false
+						return
+					}
+					budget -= len(b)
+					model.WriteBits(b)
+				}
+				// zeros first
+				zn := rng.Range(1, 24)
+				switch zw {
+				case "WriteBit(0)":
+					step(wop{Op: "WriteBit", N: 0}, []bool{false})
+				case "WriteUint(0)":
+					step(wop{Op: "WriteUint", N: zn, U: 0}, make([]bool, zn))
+				case "WriteInt(0)":
+					step(wop{Op: "WriteInt", N: zn, I: 0}, make([]bool, zn))
+				case "WriteBytes(00..)":
+					step(wop{Op: "WriteBytes"}, make([]bool, 8*(1+zn%3)))
+				case "WriteBitArray(0..)":
+					step(wop{Op: "WriteBitArray"}, make([]bool, zn))
+				case "WriteBigUint(0)":
+					step(wop{Op: "WriteBigUint", N: zn, Big: "0"}, make([]bool, zn))
+				case "WriteUnary(0)":
+					step(wop{Op: "WriteUnary", N: 0}, []bool{false})
+				case "WriteBitString(0..)":
+					step(wop{Op: "WriteBitString"}, make([]bool, zn))
+				default:
+					step(wop{Op: "Append(partly-read)", N: 0}, make([]bool, zn))
+				}
+				for k := 0; k < rng.Intn(6) && good; k++ {
+					o, b := genWrite(rng)
+					step(o, b)
+				}
+				R.Eval(fmt.Sprintf("fromderived/%s/%d/%d/%s", start, L, pk, zw))
+				if !good {
+					continue
+				}
+				s := t.bitString()
+				if got := realBits(s); !rb.Equal(got, model.B) {
+					wit["got"], wit["want"] = rb.String(got), rb.String(model.B)
+					viol("content-mismatch@writes-after-"+start, wit)
+					continue
+				}
+				// through the read methods and the text form
+				s.ResetCounter()
+				model.Reset()
+				readOK := true
+				for model.Avail() > 0 && readOK {
+					w := rng.Range(1, 64)
+					if w > model.Avail() {
+						w = model.Avail()
+					}
+					var v uint64
+					var err error
+					if !guard("ReadUint", wit, func() { v, err = s.ReadUint(w) }) {
+						readOK = false
+						break
+					}
+					want, _ := model.Take(w)
+					if err != nil || v != rb.ToUint(want) {
+						viol("mismatch@ReadUint/after-"+start, wit)
+						readOK = false
+					}
+				}
+				if !readOK {
+					continue
+				}
+				s.ResetCounter()
+				var all boc.BitString
+				var hx string
+				var err error
+				if guard("ReadBits(all)", wit, func() { all, err = s.ReadBits(len(model.B)); hx = s.ToFiftHex() }) {
+					if err != nil || !rb.Equal(realBits(&all), model.B) {
+						viol("mismatch@ReadBits/after-"+start, wit)
+					} else if hx != rb.FiftHex(model.B) {
+						wit["got"], wit["want"] = mon.Trunc(hx, 80), mon.Trunc(rb.FiftHex(model.B), 80)
+						viol("mismatch@ToFiftHex/after-"+start, wit)
+					}
+				}
+			}
+		}
+	}
+	for k, v := range seen {
+		R.Count("start_from_"+k, v)
+	}
+}
+
+// startObject makes the object a sequence starts from; it holds bitsv.
+func startObject(start string, bitsv []bool, rng *mon.Rng, wit map[string]any) (*target, bool) {
+	L := len(bitsv)
+	var s *boc.BitString
+	var err error
+	switch start {
+	case "BitStringFromFiftHex":
+		text := rb.FiftHex(bitsv)
+		wit["text"] = mon.Trunc(text, 80)
+		if !guard(start, wit, func() { s, err = boc.BitStringFromFiftHex(text) }) {
+			return nil, false
+		}
+		if err != nil || s == nil {
+			wit["err"] = fmt.Sprint(err)
+			viol("roundtrip@FiftHex", wit)
+			return nil, false
+		}
+	case "UnmarshalJSON":
+		text := `"` + rb.FiftHex(bitsv) + `"`
+		wit["text"] = mon.Trunc(text, 80)
+		s = new(boc.BitString)
+		if !guard(start, wit, func() { err = s.UnmarshalJSON([]byte(text)) }) {
+			return nil, false
+		}
+		if err != nil {
+			wit["err"] = err.Error()
+			viol("roundtrip@BitString.JSON", wit)
+			return nil, false
+		}
+	case "ReadBits(aligned)", "ReadBits(unaligned)", "ReadRemainingBits":
+		skip := 8 * rng.Intn(3)
+		if start == "ReadBits(unaligned)" {
+			skip = rng.Range(1, 7)
+		}
+		all := append(pattern(0, skip, nil), bitsv...)
+		if start != "ReadRemainingBits" {
+			all = append(all, pattern(0, 24, nil)...) // the source goes on with ones
+		}
+		src := bsOf(all, len(all))
+		src.Skip(skip)
+		var sub boc.BitString
+		if !guard(start, wit, func() {
+			if start == "ReadRemainingBits" {
+				sub = src.ReadRemainingBits()
+			} else {
+				sub, err = src.ReadBits(L)
+			}
+		}) {
+			return nil, false
+		}
+		if err != nil {
+			R.HarnessError("startObject %s: %v", start, err)
+			return nil, false
+		}
+		s = &sub
+	case "Copy":
+		// a copy of a string whose buffer holds more than its own bits: itself read out of the middle of ones
+		all := append(append([]bool{}, bitsv...), pattern(0, 24, nil)...)
+		src := bsOf(all, len(all))
+		sub, e := src.ReadBits(L)
+		if e != nil {
+			R.HarnessError("startObject Copy: %v", e)
+			return nil, false
+		}
+		var cp boc.BitString
+		if !guard(start, wit, func() { cp = sub.Copy() }) {
+			return nil, false
+		}
+		s = &cp
+	case "On-beyond-len":
+		capacity := L + rng.Range(1, 40)
+		x := boc.NewBitString(capacity)
+		x.WriteBitArray(bitsv)
+		var pokes []int
+		for k := 0; k < 6; k++ {
+			i := L + rng.Intn(capacity-L)
+			pokes = append(pokes, i)
+			if !guard("On", wit, func() { err = x.On(i) }) {
+				return nil, false
+			}
+			if err != nil {
+				wit["err"], wit["poke"] = err.Error(), i
+				viol("error@On/within-capacity", wit)
+				return nil, false
+			}
+		}
+		wit["On"] = pokes
+		s = &x
+	default: // ParsedCell(content)
+		c := boc.NewCell()
+		c.WriteBitString(*bsOf(bitsv, L))
+		b, e := c.ToBoc()
+		var cs []*boc.Cell
+		if e == nil {
+			cs, e = boc.DeserializeBoc(b)
+		}
+		if e != nil || len(cs) != 1 {
+			R.HarnessError("startObject: cannot pass a cell through a BOC: %v", e)
+			return nil, false
+		}
+		return &target{name: "ParsedCell", cell: cs[0]}, true
+	}
+	return &target{name: "BitString", bs: s}, true
+}
+
+// applyDerivedWrite is applyWrite without its detour for an Append that does not fit (here the room was made first).
+func applyDerivedWrite(t *target, o wop, bitsv []bool) error {
+	if t.bs != nil && o.Op == "Append(partly-read)" {
+		t.bs.Append(partlyRead(bitsv, o.N))
+		return nil
+	}
+	return applyWrite(t, o, bitsv)
+}
